@@ -3,6 +3,10 @@
 import json
 
 ARMED = {
+ "C14": ("typestate path search (NewMutation→Execute) with creation-guard propagation; write→announce must-pass-through; loop-shape checks of Execute by linear forms and SCCP; worker completeness path search; sibling comparison-direction agreement of vote loops",
+         "Static decision of necessary conditions of 'lower-resolution levels match the down-sampling': every NewMutation reaches Execute on success exits (release on error exits: seven known findings) (R14.1); every hi-res block write/record with a mutation in scope is followed by BlockMutated on success paths (R14.2); Execute chains levels up to the configured maximum, marks level s+1 idle only after it was stored, and the started levels equal the stopped ones (R14.3); every lower-resolution block is stored at scale+1 and passed to the next level before its octant is reported done (R14.4); all map-based vote loops break ties towards the smaller label (R14.5). Level 'other': the vote and octant assembly themselves (value-level) are not decided.",
+         "Trusts go/ssa; configuration flags (downscale, scale==0) may legitimately skip announcements.",
+         "DESIGN.md §2 C14"),
  "C11": ("must-hold lockset dataflow per lock class (access-path identity), shard-selector provenance for the index read-modify-write, critical-section continuity between check and act, acquire/release path search",
          "Static decision (a lockset argument holds for every schedule) of necessary conditions of 'concurrent acknowledged mutations are never lost': a body's index read-modify-write is covered by the shard mutex chosen by that same body label (R11.1); stores into shared DAG/repo/id-map/branch-head/counter/split state happen with the owning mutex write-held (R11.2); the uuid membership test and insertion share one critical section and allocators read their counters under their lock (R11.3); versioned put/delete are single transactions (R11.4); every struct-field mutex acquired is released on all return paths (R11.5). Three genuine findings on the tree are listed as known findings (MergeLabels / RenumberLabels index RMW unlocked; newVersion links a child under a read lock). Level 'other': annotation and neuronjson element edits have no lock at all in the code (so no lock rule can be stated for them); linearizability of outcomes is not decided.",
          "Lock identity by access path / field name (no pointer analysis); start-up loaders and RPC-only surgery are exceptions with reasons.",
